@@ -86,6 +86,8 @@ pub struct SiteCounts {
     pub comments_added: usize,
     pub blanks_added: usize,
     pub breaks_added: usize,
+    /// line breaks before a binary operator / arrow inside brackets
+    pub op_breaks: usize,
     pub nested_sugar: usize,
 }
 
@@ -120,6 +122,8 @@ pub struct Printer<'a> {
     depth: usize,
     fn_depth: usize,
     sugar_depth: usize,
+    /// > 0 while the text being produced sits directly inside (...) / [...] / {...} (newlines are skipped there)
+    brackets: usize,
     unreachable_lines: HashMap<u32, usize>,
     sites: SiteCounts,
     annot_taken: Vec<bool>,
@@ -208,6 +212,7 @@ impl<'a> Printer<'a> {
             depth: 0,
             fn_depth: 0,
             sugar_depth: 0,
+            brackets: 0,
             unreachable_lines: HashMap::new(),
             sites: SiteCounts::default(),
             annot_taken: Vec::new(),
@@ -417,16 +422,36 @@ impl<'a> Printer<'a> {
 
     /// expression as an operand of an operator / postfix: parenthesised unless atomic
     fn operand(&mut self, x: &Expr) -> String {
-        let s = self.expr(x);
         if is_atom(x) {
-            s
+            self.expr(x)
         } else {
+            self.brackets += 1;
+            let s = self.expr(x);
+            self.brackets -= 1;
             format!("({})", s)
+        }
+    }
+
+    /// optional line break before a binary operator / arrow inside brackets
+    fn op_break(&mut self) -> String {
+        if self.brackets == 0 {
+            return " ".to_string();
+        }
+        let b = take(&self.plan.breaks, &mut self.cur.breaks);
+        if b & 2 == 2 {
+            self.sites.breaks_added += 1;
+            self.sites.op_breaks += 1;
+            self.line += 1;
+            let nl = if self.plan.crlf { "\r\n" } else { "\n" };
+            format!("{}{}    ", nl, self.ind())
+        } else {
+            " ".to_string()
         }
     }
 
     fn args(&mut self, xs: &[Expr]) -> String {
         let mut out = String::new();
+        self.brackets += 1;
         for (i, a) in xs.iter().enumerate() {
             if i > 0 {
                 let s = self.sep();
@@ -435,6 +460,7 @@ impl<'a> Printer<'a> {
             let t = self.expr_arg(a);
             out.push_str(&t);
         }
+        self.brackets -= 1;
         out
     }
 
@@ -482,11 +508,24 @@ impl<'a> Printer<'a> {
                     self.sites.nested_sugar += 1;
                 }
                 self.sugar_depth += 1;
+                if !tail {
+                    self.brackets += 1;
+                }
                 let mut s = format!("{}'", callee);
                 for (i, a) in args.iter().enumerate() {
-                    s.push_str(if i == 0 { " " } else { ", " });
+                    if i == 0 {
+                        s.push(' ');
+                    } else if self.brackets > 0 {
+                        let sp = self.sep();
+                        s.push_str(&sp);
+                    } else {
+                        s.push_str(", ");
+                    }
                     let t = self.expr_arg(a);
                     s.push_str(&t);
+                }
+                if !tail {
+                    self.brackets -= 1;
                 }
                 self.sugar_depth -= 1;
                 if tail {
@@ -509,7 +548,15 @@ impl<'a> Printer<'a> {
                 };
                 let rest = self.args(&args[1..]);
                 self.sugar_depth -= 1;
-                let s = format!("{} -> {}({})", first, callee, rest);
+                let brk = if !tail {
+                    self.brackets += 1;
+                    let b = self.op_break();
+                    self.brackets -= 1;
+                    b
+                } else {
+                    self.op_break()
+                };
+                let s = format!("{}{}-> {}({})", first, brk, callee, rest);
                 if tail {
                     s
                 } else {
@@ -548,7 +595,8 @@ impl<'a> Printer<'a> {
             EKind::Bin(op, a, b) => {
                 let l = self.operand(a);
                 let r = self.operand(b);
-                format!("{} {} {}", l, op.text(), r)
+                let brk = self.op_break();
+                format!("{}{}{} {}", l, brk, op.text(), r)
             }
             EKind::Neg(a) => format!("-{}", self.operand(a)),
             EKind::Not(a) => format!("not {}", self.operand(a)),
@@ -568,6 +616,7 @@ impl<'a> Printer<'a> {
             EKind::Lambda(def) => self.fn_text(def, None),
             EKind::BlobNew { blob, fields, .. } => {
                 let mut s = format!("{} {{", self.blob_name(*blob));
+                self.brackets += 1;
                 for (i, (n, fx)) in fields.iter().enumerate() {
                     if i > 0 {
                         let sp = self.sep();
@@ -578,6 +627,7 @@ impl<'a> Printer<'a> {
                     let t = self.expr_arg(fx);
                     s.push_str(&format!("{}: {}", n, t));
                 }
+                self.brackets -= 1;
                 s.push_str(" }");
                 s
             }
@@ -628,6 +678,7 @@ impl<'a> Printer<'a> {
     }
 
     fn block_lines(&mut self, b: &Block, value_as_ret: Option<bool>) {
+        let saved_brackets = std::mem::replace(&mut self.brackets, 0);
         self.depth += 1;
         for s in &b.stmts {
             self.stmt(s);
@@ -643,6 +694,7 @@ impl<'a> Printer<'a> {
             }
         }
         self.depth -= 1;
+        self.brackets = saved_brackets;
     }
 
     fn if_text(&mut self, branches: &[(Expr, Block)], default: &Option<Block>) -> String {
